@@ -516,7 +516,12 @@ def encoder_paths(prog, eff, fname):
                 if b == ("arg", bi):
                     stores[off] = e.args[1]
                 elif isinstance(b, tuple) and b[0] == "idx" and P.ptr_key(b[1])[0] == ("arg", bi):
-                    bad.append(e)
+                    # buffer[i] with i known on this path (an unrolled fixed-count loop) is buffer + i
+                    lin = P.linear(e.args[0])
+                    if set(lin) <= {("arg", bi), 1} and lin.get(("arg", bi)) == 1:
+                        stores[lin.get(1, 0)] = e.args[1]
+                    else:
+                        bad.append(e)
             elif e.kind == "call" and e.callee in ("memcpy", "memset", "memmove") or e.kind in ("memcpy", "memset"):
                 db = P.ptr_key(e.args[0])[0]
                 if db == ("arg", bi) or (isinstance(db, tuple) and db[0] == "idx"):
